@@ -131,6 +131,10 @@ def grover_cases(tier, rng):
                 if tier == "quick":
                     which = which[:2] + ([which[2]] if (M + j) % 4 == 0 else [])
                 add(n, sols, which)
+    # conjunctions of positive literals: the oracle is one multi-controlled X without scratch qubits,
+    # the other forms of the same set have ancillas
+    for n, sols in ((4, [15]), (5, [31]), (5, [15, 31]), (4, [7, 15])):
+        add(n, sols, ["eq", "oraclize", "search"])
     # the test-suite's shape: a two-component argument (decoded as a tuple of Qints)
     cases.append(dict(kind="grover", n=4, sols=[3, 6, 9, 12], n_matching=4, form="tuple-of-qint", opt="default",
                       src="def test(k: Tuple[Qint[2], Qint[2]]) -> bool:\n    return k[0] + k[1] == 3"))
